@@ -252,6 +252,9 @@ def _vec_case(rng, spec, tables):
             inp[p] = str(rng.choice(["nist", "cheng", "cheng", "nist", "other"]))
         elif t == "str":
             inp[p] = str(rng.choice(strings))
+        elif t == "v" and p == "weights":
+            w = rng.random(n) + 0.05
+            inp[p] = [float(x) for x in (w / w.sum() if (n and rng.random() < 0.7) else w * float(rng.choice([0.0, 1.0, 3.0])))]
         elif t == "v":
             inp[p] = _gen_vec(rng, n)
         elif t == "b":
@@ -296,12 +299,20 @@ def _vec_python(module, spec, inp):
     obj = None
     if spec.get("cls"):          # a method: a bare instance of the real class carrying exactly the attributes the translation reads
         cls = getattr(module, spec["cls"])
+        if spec.get("stubs"):    # abstract inputs: a subclass whose helper method / property hand back the generated arrays
+            ns = {}
+            for attr, (kind, pname) in spec["stubs"].items():
+                arr = np.array(inp[pname], dtype=float)
+                ns[attr] = (lambda self, a=arr: a.copy()) if kind == "call" else property(lambda self, a=arr: [a.copy()])
+            cls = type("Stubbed" + spec["cls"], (cls,), ns)
         obj = object.__new__(cls)
     for p, t in spec["params"]:
         v = inp[p]
         val = (None if v is None else np.array(v, dtype=float)) if t in ("v", "ov", "m") else (np.array(v, dtype=bool) if t == "b" else v)
         if p.startswith("self."):
             setattr(obj, p[5:], val)
+        elif any(pname == p for _, pname in (spec.get("stubs") or {}).values()):
+            pass
         else:
             kwargs[p] = val
     try:
